@@ -104,6 +104,9 @@ static void apply(void *vs, int op)
 {
     st_t *s = vs; op_t *o = &OPS[op]; const char *shape = pos_shape(s, o->key), *m = "set";
     mc_set_shape(shape);
+    /* a caller looks up the greatest key before every operation (so every operation is preceded and followed by a lookup) */
+    if (s->m) { int gk = -1; for (int k = 0; k < NK; k++) if (s->has[k]) gk = k;
+        if (gk >= 0) { spif_obj_t K = S_(KEYS[gk]); spif_obj_t g = SPIF_MAP_GET(s->m, K); SPIF_OBJ_DEL(K); if (!is_str(g, VALS[s->val[gk]])) FAIL(site("get"), "model:return", "key present", "get(%s), asked between two operations, returned %s", KEYS[gk], g ? "a wrong value" : "NULL"); } }
     if (o->k == K_SET || o->k == K_SET_PAIR) {
         spif_obj_t K = S_(KEYS[o->key]), V = S_(VALS[o->v]); spif_bool_t r;
         if (o->k == K_SET) r = SPIF_MAP_SET(s->m, K, V);
@@ -207,13 +210,19 @@ static void probe(void *vs)
         spif_list_t l = what == 0 ? SPIF_MAP_GET_KEYS(m, (spif_list_t) NULL) : (what == 1 ? SPIF_MAP_GET_VALUES(m, (spif_list_t) NULL) : SPIF_MAP_GET_PAIRS(m, (spif_list_t) NULL));
         check_list(l, 0, s, what, nm[what], shape);
         if (l) SPIF_LIST_DEL(l);
-        /* into a caller-supplied list that already holds one element */
-        spif_list_t mine = what == 1 ? SPIF_LIST_NEW(linked_list) : SPIF_LIST_NEW(array); SPIF_LIST_APPEND(mine, S_("own")); SPIF_LIST_APPEND(mine, S_("own2"));      /* two elements: their order is the caller's */
+        /* into a caller-supplied list of each list class that already holds two elements */
+        for (int lc = 0; lc < 3; lc++) {
+        static const char *lcn[3] = { "array", "linked_list", "dlinked_list" };
+        spif_list_t mine = lc == 0 ? SPIF_LIST_NEW(array) : (lc == 1 ? SPIF_LIST_NEW(linked_list) : SPIF_LIST_NEW(dlinked_list)); SPIF_LIST_APPEND(mine, S_("own")); SPIF_LIST_APPEND(mine, S_("own2"));      /* two elements: their order is the caller's */
+        spif_class_t k0 = SPIF_OBJ_CLASS(mine);
         spif_list_t r = what == 0 ? SPIF_MAP_GET_KEYS(m, mine) : (what == 1 ? SPIF_MAP_GET_VALUES(m, mine) : SPIF_MAP_GET_PAIRS(m, mine));
         if (r != mine) FAIL(site(nm[what]), "model:return", shape, "did not return the caller's list");
-        else if (!is_str(SPIF_LIST_GET(mine, 0), "own") || !is_str(SPIF_LIST_GET(mine, 1), "own2")) FAIL(site(nm[what]), "model:caller-list-clobbered", shape, "the caller's own two elements changed or changed places");
+        else if (SPIF_OBJ_CLASS(mine) != k0) FAIL(site(nm[what]), "model:caller-list-clobbered", shape, "the caller's %s list has another class record afterwards", lcn[lc]);
+        else if ((int) SPIF_LIST_COUNT(mine) != 2 + s->n) FAIL(site(nm[what]), "model:caller-list-clobbered", shape, "the caller's %s list holds %d elements, expected its own 2 + %d", lcn[lc], (int) SPIF_LIST_COUNT(mine), s->n);
+        else if (!is_str(SPIF_LIST_GET(mine, 0), "own") || !is_str(SPIF_LIST_GET(mine, 1), "own2")) FAIL(site(nm[what]), "model:caller-list-clobbered", shape, "the caller's own two elements changed or changed places (%s list)", lcn[lc]);
         else check_list(mine, 2, s, what, nm[what], shape);
         SPIF_LIST_DEL(mine);
+        }
     }
     { spif_iterator_t it = SPIF_MAP_ITERATOR(m); int i = 0;
       if (!it) FAIL(site("iterator"), "model:return", shape, "iterator() returned NULL");
